@@ -115,7 +115,7 @@ func VerifC10_Gate() {
 func VerifC10_ProjectionExact() {
 	vectors := [][]int64{
 		{1000, 1000, 1000, 1000, 1000, 1000, 1000}, // 2^32 mod 7 = 4: every fraction is 4/7
-		{2000, 1000},                               // fractions 2/3 and 1/3
+		{2000, 1000}, // fractions 2/3 and 1/3
 		{1, 2, 4},
 		{999_999_999_999, 1},
 		{5, 5, 5, 5, 5, 5},
@@ -155,6 +155,6 @@ func VerifC10_ProjectionExact() {
 
 var VerifEntries = map[string]func(){
 	"VerifC10_ProjectionExact": VerifC10_ProjectionExact,
-	"VerifC10_Projection": VerifC10_Projection,
-	"VerifC10_Gate":       VerifC10_Gate,
+	"VerifC10_Projection":      VerifC10_Projection,
+	"VerifC10_Gate":            VerifC10_Gate,
 }
